@@ -427,7 +427,16 @@ package tchannel
 // null checksum, the checksumType field for a hash checksum; the ghost tcode
 // for anything else. CSreal: the object really computes a 4-byte checksum (the
 // null checksum keeps no state: Add/Reset have no effect on it).
-//@ pred ctype(c Checksum) := ite(istype(c, nullChecksum), 0, ite(istype(c, *hashChecksum), c.(*hashChecksum).checksumType, tcode(c)))
+// csbase: the checksum object that does the work -- the wrapped checksum for the
+// relay's *noReleaseChecksum wrapper (which only turns Release into a no-op and
+// forwards everything else), the value itself otherwise. All running-checksum
+// state (cs) and type facts are stated on csbase(...), so that they are true of
+// the wrapper too. CSplain: not a wrapper (wrappers never wrap wrappers: the
+// structure invariant of noReleaseChecksum in verif_contracts_conform.go).
+//@ pred csbase(c Checksum) := ite(istype(c, *noReleaseChecksum), c.(*noReleaseChecksum).Checksum, c)
+//@ pred CSplain(c Checksum) := !istype(c, *noReleaseChecksum)
+//@ pred ctype0(c Checksum) := ite(istype(c, nullChecksum), 0, ite(istype(c, *hashChecksum), c.(*hashChecksum).checksumType, tcode(c)))
+//@ pred ctype(c Checksum) := ctype0(csbase(c))
 //@ pred CSreal(c Checksum) := ChecksumType(ctype(c)).ChecksumSize() == 4
 
 //@ iface Checksum.TypeCode() (t ChecksumType)
@@ -437,15 +446,15 @@ package tchannel
 //@   modifies nothing
 //@   ensures n == ChecksumType(ctype(self)).ChecksumSize()
 //@ iface Checksum.Add(b []byte) (r []byte)
-//@   modifies cs(self)
-//@   ensures CSreal(self) ==> cs(self) == csupd(old(cs(self)), b)
+//@   modifies cs(csbase(self))
+//@   ensures CSreal(self) ==> cs(csbase(self)) == csupd(old(cs(csbase(self))), b)
 //@ iface Checksum.Sum() (r []byte)
 //@   modifies nothing
 //@   ensures len(r) == ChecksumType(ctype(self)).ChecksumSize()
-//@   ensures len(r) == 4 ==> be32(r, 0) == cssum(cs(self))
+//@   ensures len(r) == 4 ==> be32(r, 0) == cssum(cs(csbase(self)))
 //@ iface Checksum.Reset()
-//@   modifies cs(self)
-//@   ensures CSreal(self) ==> cs(self) == csinit()
+//@   modifies cs(csbase(self))
+//@   ensures CSreal(self) ==> cs(csbase(self)) == csinit()
 //@ iface Checksum.Release()
 //@   modifies nothing
 
@@ -472,10 +481,16 @@ package tchannel
 //@   modifies cs(c)
 //@   ensures c != nil && (CSreal(c) ==> cs(c) == csinit())
 //@   defines !istype(c, nullChecksum) ==> ctype(c) == t
+// (pool discipline, T3: the pools hold hash and null checksums only -- what their
+// New functions build and what ChecksumType.Release, below, accepts; never the
+// relay's noReleaseChecksum wrapper, whose Release is a no-op)
+//@   defines CSplain(c)
 //@   property C02 C03
 
 //@ func (t ChecksumType) Release(checksum Checksum)
 //@   requires t < 4
+//@   label only-plain-checksums-are-pooled
+//@   requires CSplain(checksum)
 //@   property C02
 
 // hashChecksum: the concrete object folds exactly the bytes it is given into
@@ -556,11 +571,11 @@ package tchannel
 // by that amount.
 //@ func (c *writableChunk) writeAsFits(b []byte) (n int)
 //@   requires WC(c)
-//@   modifies c.size, c.contents.remaining, c.contents.err, elems(c.contents.remaining), cs(c.checksum)
+//@   modifies c.size, c.contents.remaining, c.contents.err, elems(c.contents.remaining), cs(csbase(c.checksum))
 //@   label writes-what-fits
 //@   ensures (len(b) <= len(old(c.contents.remaining)) ==> n == len(b)) && (len(b) > len(old(c.contents.remaining)) ==> n == len(old(c.contents.remaining)))
 //@   label checksum-over-the-written-bytes
-//@   ensures CSreal(c.checksum) ==> cs(c.checksum) == csupd(old(cs(c.checksum)), old(b[:n]))
+//@   ensures CSreal(c.checksum) ==> cs(csbase(c.checksum)) == csupd(old(cs(csbase(c.checksum))), old(b[:n]))
 //@   label bytes-copied-in-order
 //@   ensures samebytes(old(c.contents.remaining), 0, old(b), 0, n)
 //@   ensures c.contents.remaining == old(c.contents.remaining)[n:] && c.contents.err == nil
@@ -589,7 +604,7 @@ package tchannel
 //@   ensures samebytes(f.flagsRef, off(f.checksumRef) + len(f.checksumRef) - off(f.flagsRef), old(f.flagsRef), off(f.checksumRef) + len(f.checksumRef) - off(f.flagsRef),
 //@             off(f.flagsRef) + len(f.flagsRef) - off(f.checksumRef) - len(f.checksumRef))
 //@   label checksum-stamped
-//@   ensures len(f.checksumRef) == 4 ==> be32(f.checksumRef, 0) == cssum(cs(f.checksum))
+//@   ensures len(f.checksumRef) == 4 ==> be32(f.checksumRef, 0) == cssum(cs(csbase(f.checksum)))
 //@   label more-flag-set-iff-more
 //@   ensures hasMoreFragments && f.flagsRef != nil ==> u8at(f.flagsRef, 0) == 1
 //@   ensures !hasMoreFragments ==> u8at(f.flagsRef, 0) == old(u8at(f.flagsRef, 0))
@@ -785,11 +800,21 @@ package tchannel
 
 //@ ghostfield lastmore
 //@ ghostfield nflushed
+// (restated for conformance, see verif_contracts_conform.go: the fragment's
+// checksum is the given one or the relay's no-release wrapper around it; only
+// an INITIAL fragment may fold bytes into the given checksum -- the relay writes
+// arg1 itself; a continuation fragment has room for an empty chunk and another
+// chunk header, an initial one for a chunk header)
 //@ iface fragmentSender.newFragment(initial bool, checksum Checksum) (f *writableFragment, err error)
-//@   requires checksum != nil
-//@   modifies allbut fragmentingWriter, cs, lastmore, nflushed
-//@   ensures err == nil ==> fresh(f) && WF(f) && f.checksum == checksum && f.contents.err == nil && len(f.contents.remaining) > 4
+//@   requires checksum != nil && CSplain(checksum) && SenderOK(self)
+//@   modifies allbut fragmentingWriter, lastmore, nflushed
+//@   ensures err == nil ==> fresh(f) && WF(f) && csbase(f.checksum) == checksum && f.contents.err == nil && len(f.contents.remaining) > 2
+//@   ensures err == nil && !initial ==> len(f.contents.remaining) > 4
+//@   ensures SenderOK(self) && (err == nil ==> FragOK(self, f))
+//@   label only-an-initial-fragment-touches-the-running-checksum
+//@   ensures forall k int :: (!initial || k != ref(checksum)) ==> cs(k) == old(cs(k))
 //@ iface fragmentSender.flushFragment(f *writableFragment) (err error)
+//@   requires SenderOK(self) && FragOK(self, f)
 //@   label flushed-fragment-is-well-formed
 //@   requires WF(f)
 //@   label flushed-fragment-has-a-chunk
@@ -797,28 +822,48 @@ package tchannel
 //@   modifies allbut fragmentingWriter, cs
 //@   ensures nflushed(self) == old(nflushed(self)) + 1
 //@   ensures lastmore(self) == old(u8at(f.flagsRef, 0)) % 2
+//@   ensures SenderOK(self)
 //@ iface fragmentSender.doneSending()
+//@   requires SenderOK(self)
 //@   modifies allbut fragmentingWriter, cs, lastmore, nflushed
 
+// SenderOK: the configuration the library's own senders rely on (never-nil
+// members wired up by beginCall / handleCallReq / newFragmentSender; they are
+// structure invariants of those types, see verif_contracts_conform.go, hence
+// stable). Stated by type test so that the writer can pass it on as an
+// interface precondition; vacuous for any other implementation.
+//@ pred SenderOK(s fragmentSender) :=
+//@        (istype(s, *OutboundCall) ==> s.(*OutboundCall).mex != nil && s.(*OutboundCall).log != nil && s.(*OutboundCall).conn != nil && s.(*OutboundCall).messageForFragment != nil) &&
+//@        (istype(s, *InboundCallResponse) ==> s.(*InboundCallResponse).mex != nil && s.(*InboundCallResponse).log != nil && s.(*InboundCallResponse).conn != nil &&
+//@             s.(*InboundCallResponse).messageForFragment != nil && s.(*InboundCallResponse).cancel != nil && s.(*InboundCallResponse).timeNow != nil && s.(*InboundCallResponse).statsReporter != nil) &&
+// (the relay's sender copies from the call req frame it re-fragments: the thread
+// running the writer holds that frame throughout)
+//@        (istype(s, *relayFragmentSender) ==> s.(*relayFragmentSender).callReq != nil && s.(*relayFragmentSender).callReq.Frame != nil && own(s.(*relayFragmentSender).callReq.Frame) == 1)
+// FragOK: a fragment made by the relay's sender wraps a pool frame, never the
+// call req frame being re-fragmented (so flushing it leaves that frame held).
+//@ pred FragOK(s fragmentSender, f *writableFragment) := istype(s, *relayFragmentSender) ==> f.frame != s.(*relayFragmentSender).callReq.Frame
 // FWfrag: the writer's current fragment is well formed and uses the writer's checksum.
-//@ pred FWfrag(w *fragmentingWriter) := w.curFragment != nil && WF(w.curFragment) && w.curFragment.checksum == w.checksum && w.curFragment.contents.err == nil
+//@ pred FWfrag(w *fragmentingWriter) := w.curFragment != nil && WF(w.curFragment) && csbase(w.curFragment.checksum) == w.checksum && w.curFragment.contents.err == nil && FragOK(w.sender, w.curFragment)
 // FWin: while an argument is open the current chunk lives in the current
 // fragment: its size placeholder sits after the fragment header and its data
 // runs from the placeholder to the write cursor.
-//@ pred FWin(w *fragmentingWriter) := w.sender != nil && w.checksum != nil && FWfrag(w) && WC(w.curChunk) &&
+//@ pred FWin(w *fragmentingWriter) := w.sender != nil && SenderOK(w.sender) && w.checksum != nil && CSplain(w.checksum) && FWfrag(w) && WC(w.curChunk) &&
 //@        w.curChunk.contents == w.curFragment.contents && w.curChunk.checksum == w.checksum &&
 //@        arr(w.curChunk.sizeRef) == arr(w.curFragment.frame.Payload) &&
 //@        off(w.curChunk.sizeRef) >= off(w.curFragment.checksumRef) + len(w.curFragment.checksumRef) &&
 //@        off(w.curChunk.sizeRef) + 2 + w.curChunk.size == off(w.curFragment.contents.remaining)
 // FWidle: between arguments there is either no fragment yet or a well-formed
 // one with room for another chunk header.
-//@ pred FWidle(w *fragmentingWriter) := w.sender != nil && w.checksum != nil &&
+//@ pred FWidle(w *fragmentingWriter) := w.sender != nil && SenderOK(w.sender) && w.checksum != nil && CSplain(w.checksum) &&
 //@        (w.curFragment == nil || (FWfrag(w) && len(w.curFragment.contents.remaining) > 2))
 
 //@ func (w *fragmentingWriter) BeginArgument(last bool) (err error)
 //@   requires w.sender != nil && w.checksum != nil
 //@   requires w.err == nil && w.state != fragmentingWriteComplete && w.state != fragmentingWriteInArgument && w.state != fragmentingWriteInLastArgument ==> FWidle(w)
-//@   modifies allbut cs, lastmore, nflushed
+//@   modifies allbut lastmore, nflushed
+// (was `allbut cs`: false for the relay's sender, whose initial fragment folds arg1 into the writer's checksum)
+//@   label only-the-first-argument-may-touch-the-running-checksum
+//@   ensures forall k int :: (old(w.state) != fragmentingWriteStart || k != ref(old(w.checksum))) ==> cs(k) == old(cs(k))
 //@   label errors-are-sticky
 //@   ensures old(w.err) != nil ==> err == old(w.err)
 //@   label no-argument-after-complete
@@ -957,9 +1002,9 @@ package tchannel
 //@   ensures err == nil ==> r.checksum != nil && ctype(r.checksum) == r.curFragment.checksumType
 //@   ensures err == nil && old(r.checksum) != nil ==> r.checksum == old(r.checksum)
 //@   label checksum-verified
-//@   ensures err == nil && len(r.curFragment.checksum) == 4 ==> be32(r.curFragment.checksum, 0) == cssum(cs(r.checksum))
+//@   ensures err == nil && len(r.curFragment.checksum) == 4 ==> be32(r.curFragment.checksum, 0) == cssum(cs(csbase(r.checksum)))
 //@   label every-chunk-folded-into-checksum
-//@   loop 0 step (CSreal(r.checksum) ==> cs(r.checksum) == csupd(prev(cs(r.checksum)), chunkData)) && r.checksum == prev(r.checksum)
+//@   loop 0 step (CSreal(r.checksum) ==> cs(csbase(r.checksum)) == csupd(prev(cs(csbase(r.checksum))), chunkData)) && r.checksum == prev(r.checksum)
 //@   label each-chunk-appended-in-order
 //@   loop 0 step len(r.remainingChunks) == prev(len(r.remainingChunks)) + 1 && r.remainingChunks[len(r.remainingChunks)-1] == chunkData
 //@   label chunk-parse-loop-terminates
